@@ -270,6 +270,8 @@ impl ServerState {
                             Err(err) => {
                                 tracing::error!("{}", err.to_string());
                                 #[cfg(fuellabs_sway_verif)]
+                                crate::verif::set_last_error(err.to_string());
+                                #[cfg(fuellabs_sway_verif)]
                                 crate::verif::point(
                                     "W",
                                     "lcs",
